@@ -13,6 +13,8 @@ prints VIOLATION / KNOWN-FINDING lines and exits 0 (held), 1 (violation) or 2 (i
 import argparse, concurrent.futures as cf, hashlib, importlib.util, json, os, re, resource, shutil, subprocess, sys, time
 
 ROOT = os.path.dirname(os.path.dirname(os.path.abspath(__file__)))
+TAG = os.environ.get('VERIF_TAG', '')   # set by tools/seedrun.sh: separate build/replay/evidence directories for runs against a scratch tree
+OUT = os.path.join(ROOT, 'build', 'seedruns', TAG) if TAG else ROOT
 REPO = os.environ.get('VERIF_REPO', '/repo')
 RT = os.path.join(ROOT, 'rt')
 CLANG = 'clang++-14'
@@ -75,7 +77,7 @@ class Runner:
     def __init__(self, prop, tier, jobs, only=None, keep=False, seed=0):
         self.prop = prop; self.id = prop.ID; self.tier = tier; self.jobs = jobs; self.only = only; self.keep = keep
         self.seed = seed
-        self.bdir = os.path.join(ROOT, 'build', self.id)
+        self.bdir = os.path.join(ROOT, 'build', self.id + ('.' + TAG if TAG else ''))
         self.units = {}; self.log = []
         self.kf_all = json.load(open(os.path.join(ROOT, 'known_findings.json')))['findings']
         self.kf_open = [k for k in self.kf_all if k['property'] == self.id and k['status'] == 'open']
@@ -220,7 +222,7 @@ class Runner:
         trace = None
         for p in r.get('props', []):
             if p['property'] == prop_name and p.get('trace'): trace = p['trace']
-        rdir = os.path.join(ROOT, 'replay', self.id, re.sub(r'[^A-Za-z0-9_.-]', '_', ob.name))
+        rdir = os.path.join(OUT, 'replay', self.id, re.sub(r'[^A-Za-z0-9_.-]', '_', ob.name))
         shutil.rmtree(rdir, ignore_errors=True); os.makedirs(rdir)
         vals = {}
         if trace:
@@ -341,6 +343,17 @@ class Runner:
                 self.say('[%s] note: known finding %s no longer has a counterexample (fixed?)' % (self.id, k['id']))
             else:
                 inconclusive.append('known-finding confirmation %s: %s' % (k['id'], r['status']))
+        # a failed harness assertion (a statement about values) must reproduce against the real code to be reported; cbmc's own
+        # memory-safety properties (pointer/bounds/free) are reported even when no sanitizer confirms them (forming an out-of-bounds
+        # pointer is undefined behaviour that ASan/UBSan do not flag) but are marked as solver-only
+        reported = []
+        for v in violations:
+            builtin = not re.search(r'\.assertion\.\d+\]', v['violated'][0])
+            if v['replay_status'] == 'reproduced' or builtin: reported.append(v)
+            else:
+                inconclusive.append('obligation %s: counterexample to "%s" did not reproduce against the real code (%s) - encoding or model problem, replay=%s' %
+                                    (v['obligation'], v['violated'][0], v['replay_status'], v['replay']))
+        violations = reported
         wall = time.time() - t0
         enc = sorted(set(f for u in self.units.values() for f in u.meta['defined']))
         xtl_enc = [f for f in enc if re.search(r'xtl|mpark|half_float|tcb|^w_', f)]
@@ -366,8 +379,8 @@ class Runner:
         ev['assumptions'] = list(getattr(self.prop, 'ASSUMPTIONS', [])) + [
             'clang-14 -O1 IR is the code under test; ir2c.py translation (validated natively per run); cbmc 6.11 and its back ends; rt/ models',
             'operator new never fails; wrappers built with -DNDEBUG as the baseline RelWithDebInfo test build']
-        os.makedirs(os.path.join(ROOT, 'evidence'), exist_ok=True)
-        json.dump(ev, open(os.path.join(ROOT, 'evidence', self.id + '.json'), 'w'), indent=1)
+        os.makedirs(os.path.join(OUT, 'evidence'), exist_ok=True)
+        json.dump(ev, open(os.path.join(OUT, 'evidence', self.id + '.json'), 'w'), indent=1)
         self.say('[%s] tier=%s obligations=%d passed=%d violations=%d inconclusive=%d solver=%.0fs wall=%.0fs' %
                  (self.id, self.tier, len(results), ev['coverage']['discharged'], len(violations), len(inconclusive), solver_s, wall))
         if not self.keep and not violations and not inconclusive:
